@@ -65,8 +65,8 @@ def add (binOf : Int → Int → Nat → Nat → Nat) (i : CIndex) (r : CRec) : 
   let um := umCount i.unmapped
   if !r.placed then ({ i with unmapped := some (um + 1) }, .ok) else
   let i := { i with unmapped := some um }
+  if r.rid < 0 then (i, .errNoRef) else
   if r.rid < (i.refs.length : Int) - 1 then (i, .errRefOrder) else
-  if r.rid < 0 then (i, .panicIndex) else
   let rid := r.rid.toNat
   let grown := decide (rid ≥ i.refs.length)
   let refs := if grown then i.refs ++ List.replicate (rid + 1 - i.refs.length) emptyRef else i.refs
